@@ -95,7 +95,21 @@ pub fn spawn_call(sim: &Sim, c: Call) -> tokio::task::JoinHandle<()> {
             let nonce_route = request.route().to_owned();
             gate::hold_n(point, Some(1), move |f| f["route"] == nonce_route.as_str())
         });
-        let fut = net.rpc(to, request);
+        // half of the calls go through a `Peer` handle (what generated clients wrap) instead of
+        // `Network::rpc`
+        let via_peer = c.nonce % 2 == 0;
+        let fut: futures::future::BoxFuture<'static, anyhow::Result<anemo::Response<Bytes>>> = if via_peer {
+            let net = net.clone();
+            Box::pin(async move {
+                match net.peer(to) {
+                    Some(mut p) => p.rpc(request).await,
+                    None => Err(anyhow::anyhow!("not connected to peer {to}")),
+                }
+            })
+        } else {
+            let net = net.clone();
+            Box::pin(async move { net.rpc(to, request).await })
+        };
         tokio::pin!(fut);
         let outcome = if let Some(rule) = rule {
             // poll the call until it parks at the gate, then drop it there
@@ -289,6 +303,11 @@ async fn workload(mut sim: Sim, o: Opts) -> Result<Value, String> {
                 if rng.gen_bool(0.7) {
                     req.headers_mut()
                         .insert("delay-ms".into(), rng.gen_range(0..400).to_string());
+                }
+                // handlers answer with every status, with bodies and headers of their own
+                if rng.gen_bool(0.25) {
+                    let st = [400u16, 404, 429, 500, 505, 520][rng.gen_range(0..6)];
+                    req.headers_mut().insert("status".into(), st.to_string());
                 }
                 call.must_succeed = true;
             }
